@@ -936,6 +936,11 @@ func (e *Engine) evalCall(env *Env, n *ast.CallExpr) (Val, types.Type) {
 		}
 		e.specErr("in: first argument must be a map")
 		return Sc{"false"}, tBool
+	case "strle": // the total order sort.Strings sorts by
+		if !need(2) {
+			return Sc{"true"}, tBool
+		}
+		return Sc{fmt.Sprintf("(strle %s %s)", argS(0), argS(1))}, tBool
 	case "isEOF", "isUEOF", "isCRC":
 		if !need(1) {
 			return Sc{"false"}, tBool
